@@ -14,12 +14,13 @@ Key(x) == <<RVariant(x), x.start, x.total, x.hdfs, x.cat0,
             IF RVariant(x) = "OPUS" THEN x.aa2 ELSE FALSE>>
 VariantOK(ev) == ev.variant = RVariant(ev.d)
 GeomOK(ev) == RVariant(ev.d) = "NONE" \/ (ev.cyl * ev.spt >= ev.cattotal)
-ListingOK(ev) == Key(ev.d) \in DOMAIN seen => seen[Key(ev.d)] = ev.listing
+KeyE(ev) == <<Key(ev.d), ev.g>>        \* g: image group (extension, size) -- listings are compared within a group
+ListingOK(ev) == KeyE(ev) \in DOMAIN seen => seen[KeyE(ev)] = ev.listing
 Judge(ev) == VariantOK(ev) /\ GeomOK(ev) /\ ListingOK(ev)
 TInit == d = [hdfs |-> FALSE] /\ ext = "" /\ l = 1 /\ bad = {} /\ seen = <<>>
 TNext == /\ l <= Len(TraceLog) /\ l' = l + 1
          /\ bad' = IF Judge(Ev) THEN bad ELSE bad \cup {l}
-         /\ seen' = IF Key(Ev.d) \in DOMAIN seen THEN seen ELSE [k \in DOMAIN seen \cup {Key(Ev.d)} |-> IF k = Key(Ev.d) THEN Ev.listing ELSE seen[k]]
+         /\ seen' = IF KeyE(Ev) \in DOMAIN seen THEN seen ELSE [k \in DOMAIN seen \cup {KeyE(Ev)} |-> IF k = KeyE(Ev) THEN Ev.listing ELSE seen[k]]
          /\ UNCHANGED vars
 TSpec == TInit /\ [][TNext]_tvars
 Final == (l = Len(TraceLog) + 1) => PrintT(<<"VERDICT", ToJson([bad |-> bad, n |-> Len(TraceLog)])>>)
